@@ -188,6 +188,13 @@ def fill_contract(rep):
             other.known_not_none = True
             other.neg = (ast.Parameter,)
             p2 = SymObj({ast.Parameter}, 'param2', prov='param')
+            # `? AS name` / `(?)`: a placeholder carries an alias and parentheses like every other node
+            al = SymObj({ast.Identifier}, 'param1.alias', prov='param')
+            al.known_not_none = True
+            al.fields['parts'] = [pysym.mk_str('param1.alias.name')]      # one part, as the grammar builds aliases
+            p1.fields.update(value='?', alias=al, parentheses=pysym.mk_bool('param1.parentheses'))
+            p2.fields.update(value='?', alias=None, parentheses=False)
+            st['p1'], st['p2'] = p1, p2
             for n in (p1, other, p2):
                 st['rets'].append(ex.call(cb, [n], dict(KW)))
         return res
@@ -212,6 +219,14 @@ def fill_contract(rep):
         for i, r in ((1, r1), (2, r2)):
             if not (isinstance(r, SymObj) and r.cls is ast.Constant):
                 return f'Parameter #{i} is replaced by {r!r}, not a Constant'
+        for i, r, p_ in ((1, r1, st['p1']), (2, r2, st['p2'])):
+            # "plans exactly as the same statement with vi written in place of the i-th placeholder": what is written around the placeholder stays
+            if r.fields.get('alias') is not p_.fields['alias']:
+                return f"the alias of placeholder #{i} ({p_.fields['alias']!r}) is not carried over to the constant (alias {r.fields.get('alias')!r})"
+            pa, ra = p_.fields['parentheses'], r.fields.get('parentheses')
+            same = (pa is ra) or (isinstance(pa, SymVal) and isinstance(ra, SymVal) and ex.valid(pa.t == ra.t)[0]) or (not isinstance(pa, SymVal) and pa == ra)
+            if not same:
+                return f"the parentheses of placeholder #{i} are not carried over to the constant"
         v1, v2 = r1.fields.get('value'), r2.fields.get('value')
         lab1, lab2 = getattr(v1, 'label', ''), getattr(v2, 'label', '')
         if not (lab1.endswith('[0]') and lab2.endswith('[0]') and getattr(cp, 'popped', 0) == 2 and v1 is not v2):
@@ -220,7 +235,7 @@ def fill_contract(rep):
     outs, ex, bad = _explore(UTILS, 'fill_query_params', body)
     v = bad or _judge(outs, ex, post)
     _emit(rep, 'C12.fill', v, fn,
-          "ensures the k-th Parameter shown to the visitor is replaced by Constant(copy(params)[k]); other nodes kept; caller's list untouched; one traversal; returns query",
+          "ensures the k-th Parameter shown to the visitor is replaced by Constant(copy(params)[k]) with the placeholder's alias and parentheses; other nodes kept; caller's list untouched; one traversal; returns query",
           replay=replay_fill)
 
 
